@@ -428,12 +428,104 @@ fn build_env(tier: Tier) -> Option<LfEnv> {
 
 /// Builds the wrapper program for an accepted instantiation.  None = the shape cannot be wrapped (reason).
 fn wrapper(env: &LfEnv, g: &str, args: &[A], param_sigs: &[ParamSignature], branch_sigs: &[BranchSignature], fallthrough: Option<usize>) -> Result<String, &'static str> {
+    wrapper_with(env, g, args, param_sigs, branch_sigs, fallthrough, None).map(|(t, _)| t)
+}
+
+/// `construct = Some(k)`: parameters of box / nullable / enum types are built inside the function from a value
+/// of the inner (k-th variant's) type, which the function takes instead - so that the runner, which can only
+/// pass scalars, structs and arrays, can execute the instantiation.  Returns the text and whether anything was
+/// constructed.
+fn wrapper_with(env: &LfEnv, g: &str, args: &[A], param_sigs: &[ParamSignature], branch_sigs: &[BranchSignature], fallthrough: Option<usize>, construct: Option<usize>) -> Result<(String, bool), &'static str> {
     let name = |t: &ConcreteTypeId| t.to_string();
     let droppable = |t: &ConcreteTypeId| env.ctx.infos.get(t).map(|i| i.droppable).unwrap_or(false);
-    let params: Vec<String> = param_sigs.iter().map(|p| name(&p.ty)).collect();
-    let np = params.len();
+    let lf_params: Vec<String> = param_sigs.iter().map(|p| name(&p.ty)).collect();
+    // function parameters, construction prelude, and the variable passed for each libfunc parameter
+    let mut params: Vec<String> = vec![];
+    let mut prelude: Vec<String> = vec![];
+    let mut prelude_lf: BTreeSet<String> = BTreeSet::new();
+    let mut prelude_types: BTreeSet<String> = BTreeSet::new();
+    let mut pending: Vec<(usize, String, usize)> = vec![]; // (libfunc param index, construction kind, fn param index)
+    let mut constructed = false;
+    for (i, t) in lf_params.iter().enumerate() {
+        let inner = top_level_args(t);
+        let known = |x: &String| env.u.chain.contains_key(x);
+        let plan: Option<(String, Option<String>)> = match construct {
+            None => None,
+            Some(k) => {
+                if t.starts_with("Box<") && inner.len() == 1 && known(&inner[0]) {
+                    Some(("box".into(), Some(inner[0].clone())))
+                } else if t.starts_with("Nullable<") && inner.len() == 1 && known(&inner[0]) {
+                    if k % 2 == 0 { Some(("nullable".into(), Some(inner[0].clone()))) } else { Some(("null".into(), None)) }
+                } else if t.starts_with("Enum<") && inner.len() >= 2 && inner[1..].iter().all(known) {
+                    let nv = inner.len() - 1;
+                    Some((format!("enum:{}", k % nv), Some(inner[1 + k % nv].clone())))
+                } else {
+                    None
+                }
+            }
+        };
+        match plan {
+            None => {
+                pending.push((i, "as-is".into(), params.len()));
+                params.push(t.clone());
+            }
+            Some((kind, Some(inner_ty))) => {
+                constructed = true;
+                pending.push((i, kind, params.len()));
+                params.push(inner_ty);
+            }
+            Some((kind, None)) => {
+                constructed = true;
+                pending.push((i, kind, usize::MAX));
+            }
+        }
+    }
+    let nfp = params.len();
+    let mut next_var = nfp;
+    let mut arg_vars: Vec<usize> = vec![0; lf_params.len()];
+    for (i, kind, fp) in &pending {
+        let t = &lf_params[*i];
+        let inner = top_level_args(t);
+        match kind.as_str() {
+            "as-is" => arg_vars[*i] = *fp,
+            "box" => {
+                prelude_lf.insert(format!("into_box<{}>", inner[0]));
+                prelude.push(format!("into_box<{}>([{fp}]) -> ([{next_var}]);", inner[0]));
+                arg_vars[*i] = next_var;
+                next_var += 1;
+            }
+            "nullable" => {
+                prelude_lf.insert(format!("into_box<{}>", inner[0]));
+                prelude_lf.insert(format!("nullable_from_box<{}>", inner[0]));
+                prelude_types.insert(format!("Box<{}>", inner[0]));
+                prelude.push(format!("into_box<{}>([{fp}]) -> ([{next_var}]);", inner[0]));
+                prelude.push(format!("nullable_from_box<{}>([{next_var}]) -> ([{}]);", inner[0], next_var + 1));
+                arg_vars[*i] = next_var + 1;
+                next_var += 2;
+            }
+            "null" => {
+                prelude_lf.insert(format!("null<{}>", inner[0]));
+                prelude.push(format!("null<{}>() -> ([{next_var}]);", inner[0]));
+                arg_vars[*i] = next_var;
+                next_var += 1;
+            }
+            k if k.starts_with("enum:") => {
+                let idx: usize = k[5..].parse().unwrap_or(0);
+                prelude_lf.insert(format!("enum_init<{t}, {idx}>"));
+                prelude_lf.insert(format!("store_temp<{t}>"));
+                prelude.push(format!("enum_init<{t}, {idx}>([{fp}]) -> ([{next_var}]);"));
+                prelude.push(format!("store_temp<{t}>([{next_var}]) -> ([{next_var}]);"));
+                arg_vars[*i] = next_var;
+                next_var += 1;
+            }
+            _ => {}
+        }
+    }
+    if prelude_types.iter().any(|t| !env.u.chain.contains_key(t)) {
+        return Err("construction needs an undeclared type");
+    }
+    let np = nfp;
     // per-branch outputs
-    let mut next_var = np;
     let mut branches: Vec<Vec<(usize, ConcreteTypeId)>> = vec![];
     for b in branch_sigs {
         let mut v = vec![];
@@ -455,10 +547,12 @@ fn wrapper(env: &LfEnv, g: &str, args: &[A], param_sigs: &[ParamSignature], bran
             return Err("branches keep different non-droppable outputs");
         }
     }
-    let mut used_types: BTreeSet<String> = params.iter().cloned().collect();
-    let mut helper_lf: BTreeSet<String> = BTreeSet::new();
-    let mut stmts: Vec<String> = vec![];
-    let arglist = (0..np).map(|i| format!("[{i}]")).collect::<Vec<_>>().join(", ");
+    let mut used_types: BTreeSet<String> = params.iter().cloned().chain(lf_params.iter().cloned()).chain(prelude_types.iter().cloned()).collect();
+    let mut helper_lf: BTreeSet<String> = prelude_lf.clone();
+    let mut stmts: Vec<String> = prelude.clone();
+    let base = prelude.len();
+    let _ = np;
+    let arglist = arg_vars.iter().map(|i| format!("[{i}]")).collect::<Vec<_>>().join(", ");
     // layout: statement 0 = invocation, then each branch's block
     let block = |outs: &Vec<(usize, ConcreteTypeId)>, align: bool, helper_lf: &mut BTreeSet<String>, used_types: &mut BTreeSet<String>| -> Vec<String> {
         let mut b = vec![];
@@ -494,7 +588,7 @@ fn wrapper(env: &LfEnv, g: &str, args: &[A], param_sigs: &[ParamSignature], bran
             layout.extend((0..branches.len()).filter(|k| *k != ft));
         }
         let mut start_of = vec![0usize; branches.len()];
-        let mut start = 1;
+        let mut start = base + 1;
         for k in &layout {
             start_of[*k] = start;
             start += blocks[*k].len();
@@ -543,7 +637,7 @@ fn wrapper(env: &LfEnv, g: &str, args: &[A], param_sigs: &[ParamSignature], bran
     text.push('\n');
     text.push_str(&format!("test::F@0({}) -> ({});\n", params.iter().enumerate().map(|(i, t)| format!("[{i}]: {t}")).collect::<Vec<_>>().join(", "), rets.join(", ")));
     text.push_str(&hdecl);
-    Ok(text)
+    Ok((text, constructed))
 }
 
 pub fn libfunc_names() -> Vec<String> {
@@ -699,6 +793,18 @@ pub fn compiled_wrappers(tier: Tier) -> Vec<(String, Program)> {
             let Some(p) = parse(&text) else { continue };
             if matches!(guarded(|| pipeline(&p, true)), Ok(crate::c14::Stage::Ok)) {
                 out.push((format!("inst:{}", cand_text(&g, args)), p));
+            }
+            // variants that build box / nullable / enum parameters inside the function (executable by the runner)
+            let mut seen = BTreeSet::new();
+            for k in 0..3usize {
+                let Ok((text, constructed)) = wrapper_with(&env, &g, args, sig.param_signatures(), sig.branch_signatures(), sig.fallthrough(), Some(k)) else { continue };
+                if !constructed || !seen.insert(text.clone()) {
+                    continue;
+                }
+                let Some(p) = parse(&text) else { continue };
+                if matches!(guarded(|| pipeline(&p, true)), Ok(crate::c14::Stage::Ok)) {
+                    out.push((format!("inst:{}#built{k}", cand_text(&g, args)), p));
+                }
             }
         }
     }
